@@ -111,7 +111,7 @@ def chunk_geometry(ra, dec, m, max_cells=None):
         cur = np.fmod(ra + o, 360.0)
         r0, r1 = float(cur.min()), float(cur.max())
         r = r1 - r0
-        if 2.0 * (r - best) / (r + best) < -1.0e-5 and r0 > mra and r1 < 360.0 - mra:
+        if r + best > 0.0 and 2.0 * (r - best) / (r + best) < -1.0e-5 and r0 > mra and r1 < 360.0 - mra:
             best = r
             off = o
     cur = np.fmod(ra + off, 360.0)
